@@ -25,7 +25,19 @@ def _frac(q):
     return Fraction(int(q.numerator), int(q.denominator))
 
 
+import functools
+
+
+@functools.lru_cache(maxsize=4096)
+def _prime_factors_cached(n):
+    return tuple(sorted(_prime_factors_raw(n).items()))
+
+
 def _prime_factors(n):
+    return dict(_prime_factors_cached(int(n)))
+
+
+def _prime_factors_raw(n):
     out = {}
     d = 2
     while d * d <= n and d < 10000:
@@ -34,7 +46,15 @@ def _prime_factors(n):
             n //= d
         d += 1
     if n > 1:
-        out[n] = out.get(n, 0) + 1
+        if n < 10 ** 8:
+            out[n] = out.get(n, 0) + 1          # no factor below 10^4 and n < 10^8: prime
+        else:
+            # ln / sqrt atoms of integers are independent only if they are primes: factor completely
+            if n.bit_length() > 400:
+                raise Unsupported("ln/sqrt of an integer too large to factor")
+            from sympy import factorint
+            for p, m in factorint(n).items():
+                out[int(p)] = out.get(int(p), 0) + int(m)
     return out
 
 
